@@ -71,7 +71,12 @@ def small_histories(prop, tier):
         tot[0] += r["states"]
         tot[1] += r["transitions"]
         for props, code, msg, hist in r["findings"]:
-            if prop in props:
+            # that a Warning surfaces as an exception is what the user of
+            # such a process asked for; what must not happen is that the
+            # call has taken effect nevertheless, or changes what follows
+            if prop in props and code in (
+                    "rejected_finalize_changes_state",
+                    "noop_finalize_changes_state", "finalize_changes_stream"):
                 out.append([o.as_json(), code, msg, hist])
     return {"states": tot[0], "transitions": tot[1], "findings": out[:30],
             "objects": len(objs)}
